@@ -129,6 +129,7 @@ class RandomStub:
         if k is None:
             raise TypeError("sample() missing k")
         if k < 0 or k > len(pop):
+            ctx.notes["sample_overdraw"] = (len(pop), k)
             raise ValueError("Sample larger than population or is negative")
         full = list(pop)
         out = []
@@ -152,6 +153,10 @@ class RandomStub:
         if weights is None:
             weights = [1] * len(pop)
         weights = list(weights)
+        if len(weights) != len(pop):
+            raise ValueError("The number of weights does not match the population")
+        if not pop:
+            raise IndexError("list index out of range")  # what CPython's random.choices does
         out = []
         for _ in range(k):
             live = [i for i in range(len(pop)) if ctx.truth(core.gt(weights[i], 0))]
@@ -336,7 +341,7 @@ class World:
     def _set(self, mod, name, val):
         self.saved.append((mod, name, mod.__dict__.get(name, _MISSING)))
         setattr(mod, name, val)
-        self.patched_names.add(f"{mod.__name__}.{name}")
+        self.patched_names.add(f"{getattr(mod, '__module__', None) + '.' + mod.__name__ if isinstance(mod, type) else mod.__name__}.{name}")
 
     def restore(self):
         for mod, name, orig in reversed(self.saved):
@@ -374,13 +379,68 @@ class World:
             if mod.__name__ == "votekit.utils":
                 self._set(mod, "print", _quiet)
         for (mn, attr), val in (extra or {}).items():
-            mod = sys.modules[mn]
+            if ":" in mn:  # "module:Class" -> patch a class attribute
+                mname, cname = mn.split(":")
+                __import__(mname)
+                mod = getattr(sys.modules[mname], cname)
+            else:
+                __import__(mn)
+                mod = sys.modules[mn]
+            if getattr(val, "_sym_only", False) and not sym:
+                continue
             self._set(mod, attr, val(ctx) if callable(val) and getattr(val, "_factory", False) else val)
 
 
 def factory(f):
     f._factory = True
     return f
+
+
+def sym_only(f):
+    """extra patch applied in the symbolic world only (e.g. float/np shims for real-arithmetic abstraction)"""
+    f._sym_only = True
+    return f
+
+
+class SymArray(list):
+    """the handful of ndarray operations BoostedRandomDictator applies to a score vector,
+    carried out in exact (real) arithmetic on proxies"""
+
+    def astype(self, t):
+        return self
+
+    def __itruediv__(self, o):
+        self[:] = [x / o for x in self]
+        return self
+
+    def __truediv__(self, o):
+        return SymArray([x / o for x in self])
+
+    def tolist(self):
+        return list(self)
+
+
+def sym_np_overrides():
+    def array(x, *a, **k):
+        return SymArray(list(x))
+
+    def power(a, k):
+        return SymArray([x ** k for x in a])
+
+    def sum_(a):
+        r = 0
+        for x in a:
+            r = r + x
+        return r
+
+    return {"array": array, "power": power, "sum": sum_}
+
+
+def sym_float(x):
+    """float() under the real-arithmetic abstraction: proxies pass through unchanged"""
+    if isinstance(x, SF):
+        return x
+    return builtins.float(x)
 
 
 _MISSING = object()
